@@ -54,7 +54,13 @@ pub fn free_port() -> Result<u16, String> {
         let p = l.local_addr().map_err(|e| e.to_string())?.port();
         drop(l);
         let mut g = PORTS.lock().map_err(|e| e.to_string())?;
-        if g.get_or_insert_with(HashSet::new).insert(p) {
+        let set = g.get_or_insert_with(HashSet::new);
+        // ports handed out long ago belong to servers that are gone: forget them before the ephemeral range
+        // is used up (a rare clash with a port that is still in use ends as an inconclusive scenario and is retried)
+        if set.len() > 6000 {
+            set.clear();
+        }
+        if set.insert(p) {
             return Ok(p);
         }
     }
